@@ -10,6 +10,7 @@ Separate Extraction
   WalCodec.encode_log WalCodec.encode_entry WalCodec.encode_batch
   WalCodec.wal_append WalCodec.wal_append_batch WalCodec.wal_append_seq
   WalCodec.wal_new_file WalCodec.wal_update_next WalCodec.canon WalCodec.wf_entry
-  Memtable.mt_iter_entries Memtable.seek_ge
+  Memtable.mt_iter_entries Memtable.seek_ge Memtable.mt_put Memtable.mt_del Memtable.mt_get
+  Memtable.mt_set_imm Memtable.mt_empty
   Engine.init Engine.put Engine.del Engine.apply_batch Engine.tx_commit Engine.get Engine.flush
   Engine.reopen Engine.run Engine.buffer_ops.
